@@ -931,9 +931,12 @@ class SigmaDriver:
                 s0, s1 = p[1], q[1]
                 tr = self.traj.get(n)
                 if tr is None:
-                    tr = self.traj[n] = [s0 * s0, 0.0, s0]
+                    tr = self.traj[n] = [s0 * s0, 0.0, s0, 0]
                 tr[1] += tau * tau
-                if s1 * s1 > (tr[0] + tr[1]) * (1 + 4e-14):
+                tr[3] += 1
+                # rounding slack grows with the length of the trajectory: every game rounds
+                # sqrt(s^2 + tau^2) and the shrink product (a few ulp of sigma^2 per game)
+                if s1 * s1 > (tr[0] + tr[1]) * (1 + 4e-14 + 2e-15 * tr[3]):
                     ctx.violation("C06/trajectory_bound", dict(where, name=n, start_sq=enc(tr[0]), acc_tau_sq=enc(tr[1]), post=enc(s1)))
                 tr[2] = s1
                 infl = math.sqrt(s0 * s0 + tau * tau)
